@@ -6,6 +6,7 @@ package harness
 
 import (
 	"fmt"
+	"sync"
 	"testing"
 
 	"github.com/trustbloc/sidetree-go/pkg/commitment"
@@ -94,6 +95,116 @@ func TestC04_Algebra(t *testing.T) {
 }
 
 var _ jws.JWK
+
+// TestC04_OtherKeyShapes: the algebra is stated for every public key, not only for the types the signers support: a JWK
+// value with any member contents (RSA-shaped n/e, with or without nonce, arbitrary strings) hashes like its canonical form.
+func TestC04_OtherKeyShapes(t *testing.T) {
+	st := statsFor("C04")
+	check(t, "C04", 1500, func(t *rapid.T) {
+		str := func(l string) string {
+			if rapid.IntRange(0, 3).Draw(t, l+"-empty") == 0 {
+				return ""
+			}
+			if rapid.IntRange(0, 3).Draw(t, l+"-tricky") == 0 {
+				return rapid.SampledFrom(trickyStrings).Draw(t, l+"-s")
+			}
+			return b64(rapid.SliceOfN(rapid.Byte(), 1, 40).Draw(t, l))
+		}
+		j := &jws.JWK{Kty: rapid.SampledFrom([]string{"RSA", "EC", "OKP", "oct", "x"}).Draw(t, "kty"), Crv: str("crv"), X: str("x"), Y: str("y"),
+			N: str("n"), E: rapid.SampledFrom([]string{"", "AQAB", "AQAB", "Aw"}).Draw(t, "e"), Nonce: str("nonce")}
+		want := map[string]interface{}{"kty": j.Kty, "crv": j.Crv, "x": j.X, "y": j.Y}
+		for name, v := range map[string]string{"n": j.N, "e": j.E, "nonce": j.Nonce} {
+			if v != "" { // these three members are left out when empty
+				want[name] = v
+			}
+		}
+		alg := rapid.SampledFrom([]uint{18, 19}).Draw(t, "alg")
+		rv, err := commitment.GetRevealValue(j, alg)
+		if err != nil || rv != refHash(want, alg) {
+			t.Fatalf("C04 reveal value of %s = %q (%v), reference %q", refJCS(want), rv, err, refHash(want, alg))
+		}
+		c, err := commitment.GetCommitment(j, alg)
+		if err != nil || c != refCommitmentOf(want, alg) {
+			t.Fatalf("C04 commitment of %s = %q (%v), reference %q", refJCS(want), c, err, refCommitmentOf(want, alg))
+		}
+		if d, err := commitment.GetCommitmentFromRevealValue(rv); err != nil || d != c {
+			t.Fatalf("C04 commitment derived from the reveal value = %q (%v), key's commitment %q", d, err, c)
+		}
+		labels := []string{"shape-" + j.Kty}
+		prefixNames := j.N != "" && j.Nonce != ""
+		if prefixNames {
+			labels = append(labels, "members-n-and-nonce")
+		}
+		st.Case(prefixNames || j.Kty == "RSA", "shape|"+refJCS(want)+fmt.Sprint(alg), labels...)
+		st.Sample("other-shape", 2, func() interface{} { return map[string]interface{}{"jwk": want, "alg": alg, "reveal": rv, "commitment": c} })
+	})
+}
+
+// TestC04_Concurrent: the algebra holds for every key also when many keys are hashed at the same time (one shared parser,
+// package-level hashing functions). The oracle is the same reference; the schedule is whatever the runtime produces.
+func TestC04_Concurrent(t *testing.T) {
+	st := statsFor("C04")
+	check(t, "C04", 40, func(t *rapid.T) {
+		p := wideProtocol()
+		stack := newStack(p)
+		n := rapid.IntRange(2, 8).Draw(t, "goroutines")
+		type job struct {
+			k      *Key
+			alg    uint
+			raw    []byte
+			reveal string
+			next   string
+		}
+		jobs := make([]job, n)
+		for i := range jobs {
+			k := genNoncedKey(t, p, "key")
+			alg := rapid.SampledFrom([]uint{18, 19}).Draw(t, "alg")
+			next := otherKey(t, k)
+			b := newUpdate(alg, "suffix", k, next, []interface{}{map[string]interface{}{"action": "add-also-known-as", "uris": []interface{}{"https://c.example/"}}}, 0, 0)
+			jobs[i] = job{k: k, alg: alg, raw: b.bytes(), reveal: b.Reveal, next: next.Commitment(alg)}
+		}
+		rounds := rapid.IntRange(5, 40).Draw(t, "rounds")
+		errs := make(chan string, n)
+		var wg sync.WaitGroup
+		for i := range jobs {
+			wg.Add(1)
+			go func(j job) {
+				defer wg.Done()
+				lib := j.k.LibJWK()
+				for r := 0; r < rounds; r++ {
+					rv, err := commitment.GetRevealValue(lib, j.alg)
+					if err != nil || rv != j.k.Reveal(j.alg) {
+						errs <- fmt.Sprintf("reveal value of %s = %q (%v), reference %q", j.k.Name, rv, err, j.k.Reveal(j.alg))
+						return
+					}
+					c, err := commitment.GetCommitment(lib, j.alg)
+					if err != nil || c != j.k.Commitment(j.alg) {
+						errs <- fmt.Sprintf("commitment of %s = %q (%v), reference %q", j.k.Name, c, err, j.k.Commitment(j.alg))
+						return
+					}
+					if d, err := commitment.GetCommitmentFromRevealValue(rv); err != nil || d != c {
+						errs <- fmt.Sprintf("commitment derived from the reveal value of %s = %q (%v), want %q", j.k.Name, d, err, c)
+						return
+					}
+					if got, err := stack.Parser.GetRevealValue(j.raw); err != nil || got != j.reveal {
+						errs <- fmt.Sprintf("parser reports reveal value %q (%v), request carries %q", got, err, j.reveal)
+						return
+					}
+					if got, err := stack.Parser.GetCommitment(j.raw); err != nil || got != j.next {
+						errs <- fmt.Sprintf("parser reports next commitment %q (%v), request carries %q", got, err, j.next)
+						return
+					}
+				}
+			}(jobs[i])
+		}
+		wg.Wait()
+		close(errs)
+		for e := range errs {
+			t.Fatalf("C04 (with %d goroutines hashing at the same time) %s", n, e)
+		}
+		st.Case(n >= 4, fmt.Sprint("concurrent|", n, rounds, jobs[0].k.Name, jobs[0].alg), "concurrent", fmt.Sprintf("goroutines-%d", n))
+	})
+}
 
 type rejectingOriginValidator struct{}
 
